@@ -54,6 +54,20 @@ def tags_module_library(eng, module, name):
     return eng.typed(r)
 
 
+def bi_next(eng, args, kwargs, node):
+    """next(it) on an iterator that the engine models as the list of everything it will yield (Pool.imap*): a ghost
+    cursor per iterator object (ghost().iter_pos[it]); exhausting it raises StopIteration."""
+    it = args[0]
+    if not (isinstance(it, VRef) and isinstance(it.typ, ty.TList)) or len(args) != 1:
+        raise Unsupported('next() on this object')
+    cur = eng.arr(('g', 'iter_pos'))
+    pos = z3.Select(cur, it.term)
+    eng.oblige_safe('StopIteration', z3.And(pos >= 0, pos < eng.llen(it)), 'next')
+    v = eng.list_get_typed(it, pos)
+    eng.S.h[('g', 'iter_pos')] = z3.Store(cur, it.term, pos + 1)
+    return v
+
+
 def bi_hasattr(eng, args, kwargs, node):
     """hasattr(cls, name) for a repository class and a symbolic name: true for every name defined in the class
     body (from the AST) and for the attributes every object has (assumed: dir(object) of CPython)."""
@@ -90,6 +104,7 @@ def install(eng):
     eng.builtin_hooks['dict.update'] = bi_dict_update
     eng.builtin_hooks['open'] = bi_open
     eng.builtin_hooks['getattr'] = bi_getattr
+    eng.builtin_hooks['next'] = bi_next
     eng.with_hooks['pool'] = with_pool
     eng._products = {}
     eng._star_arg = None
@@ -112,6 +127,16 @@ def tags_module_attr(eng, mod, name):
 def ext_logger_noop(eng, selfv, args, kwargs):
     eng.used_assumption('logging calls do not touch model state')
     return VNone()
+
+
+def ext_logger_query(eng, selfv, args, kwargs):
+    eng.used_assumption('the logging configuration is arbitrary: isEnabledFor / level queries return any value')
+    return VBool(eng.fresh('log_enabled', z3.BoolSort()))
+
+
+def ext_logger_level(eng, selfv, args, kwargs):
+    eng.used_assumption('the logging configuration is arbitrary: isEnabledFor / level queries return any value')
+    return VInt(eng.fresh('log_level', z3.IntSort()))
 
 
 def ext_get_logger(eng, selfv, args, kwargs):
@@ -544,6 +569,7 @@ def ext_pool_imap(unordered):
         eng.S.h[('g', 'run_arg')] = narg
         eng.S.h[('g', 'n_runs')] = n0 + n
         eng.list_set_all(out, n, [arr])
+        eng.S.h[('g', 'iter_pos')] = z3.Store(eng.arr(('g', 'iter_pos')), out.term, z3.IntVal(0))   # a fresh iterator
         # every worker call satisfies the (view) contract of the mapped function
         fn = f
         pargs, pkw = [], {}
@@ -615,6 +641,9 @@ EXTERNALS = {
     'Random.shuffle': ext_random_shuffle,
     'Logger.info': ext_logger_noop,
     'Logger.setLevel': ext_logger_noop,
+    'Logger.debug': ext_logger_noop, 'Logger.warning': ext_logger_noop, 'Logger.error': ext_logger_noop,
+    'Logger.isEnabledFor': ext_logger_query, 'Logger.hasHandlers': ext_logger_query,
+    'Logger.getEffectiveLevel': ext_logger_level,
     'logging.getLogger': ext_get_logger,
     'logging.INFO': None,
     'random.Random': ext_random_new,
